@@ -778,4 +778,25 @@ func c05Rollback(e *ext) {
 		e.fail("reservationCache.DeleteReservation not found")
 	}
 	fmt.Fprintf(&e.out, "def deleteKeyedBy : String := %s\n", leanStr(keyed))
+
+	// ReservationInfo.IsUnschedulable: the last statement's return shape (a terminating reservation is unschedulable)
+	// and IsTerminating's definition
+	unsch, termDef := "", ""
+	fx := "pkg/scheduler/frameworkext"
+	if fd := e.funcDecl(fx, "ReservationInfo", "IsUnschedulable"); fd != nil && fd.Body != nil && len(fd.Body.List) > 0 {
+		if rs, ok := fd.Body.List[len(fd.Body.List)-1].(*ast.ReturnStmt); ok && len(rs.Results) == 1 {
+			unsch = c05Shape(rs.Results[0])
+		}
+	} else {
+		e.fail("ReservationInfo.IsUnschedulable not found")
+	}
+	if fd := e.funcDecl(fx, "ReservationInfo", "IsTerminating"); fd != nil && fd.Body != nil && len(fd.Body.List) == 1 {
+		if rs, ok := fd.Body.List[0].(*ast.ReturnStmt); ok && len(rs.Results) == 1 {
+			termDef = c05Path(rs.Results[0], c05Params(fd))
+		}
+	} else {
+		e.fail("ReservationInfo.IsTerminating not found or not a single return")
+	}
+	fmt.Fprintf(&e.out, "def unschedulableDef : String := %s\n", leanStr(unsch))
+	fmt.Fprintf(&e.out, "def terminatingDef : String := %s\n", leanStr(termDef))
 }
